@@ -21,6 +21,8 @@ func main() {
 		vlib.Group{Name: "inverse", Gen: genInverse},
 		vlib.Group{Name: "exp", Gen: genExp},
 		vlib.Group{Name: "pow", Gen: genPow},
+		vlib.Group{Name: "exp-sweep", Gen: genExpSweep},
+		vlib.Group{Name: "pow-sweep", Gen: genPowSweep},
 		vlib.Group{Name: "powpsd", Gen: genPowPSD},
 		vlib.Group{Name: "reuse", Gen: genReuse},
 		vlib.Group{Name: "update-contracts", Gen: genUpdateMisc},
